@@ -144,12 +144,19 @@ Definition from_components (cc : text) (values : list (text * text)) : outcome t
     else if Z.ltb branch_len (len (get_val k_branch comps1)) then Err EInvalidBranchCode
     else if Z.ltb account_len (len (get_val k_account comps1)) then Err EInvalidAccountCode
     else
-      do m1 <- matches_structure r (rng k_bank) (get_val k_bank comps1);
-      if negb m1 then Err EInvalidBankCode else
-      do m2 <- matches_structure r (rng k_branch) (get_val k_branch comps1);
-      if negb m2 then Err EInvalidBranchCode else
-      do m3 <- matches_structure r (rng k_account) (get_val k_account comps1);
-      if negb m3 then Err EInvalidAccountCode else
+      do _ok <- (fix chk (l : list (text * text)) : outcome unit :=
+                   match l with
+                   | [] => Ok tt
+                   | (k, v) :: rest =>
+                     let checked := text_eqb k k_bank || text_eqb k k_branch || text_eqb k k_account
+                                    || nonempty_text (get_val k values) in
+                     do m <- (if checked then matches_structure r (rng k) v else Ok true);
+                     if m then chk rest
+                     else Err (if text_eqb k k_bank then EInvalidBankCode
+                               else if text_eqb k k_branch then EInvalidBranchCode
+                               else if text_eqb k k_account then EInvalidAccountCode
+                               else EInvalidStructure)
+                   end) comps1;
       do checksum <- compute_national cc comps1;
       let comps2 := match checksum with [] => comps1 | _ => set_assoc k_national checksum comps1 end in
       let bban0 := zeros (Z.to_nat (r_bban_length r)) in
